@@ -202,7 +202,26 @@ def cmd_replay(path):
     rep = json.load(open(path))
     inst = driver.Instance(rep["harness"], cfg=rep["cfg"],
                            defs=[d for d in rep["defines"] if d not in
-                                 core_defs(rep["harness"])])
+                                 core_defs(rep["harness"])], tus=rep.get("tus"))
+    # generated headers (length tables, C16 obligations) are rebuilt from the current tree
+    builder = core.Builder(os.path.join(core.BUILD_ROOT, "replay-%d" % os.getpid()))
+    os.makedirs(builder.workdir, exist_ok=True)
+    try:
+        if inst.h.get("c16"):
+            builder.c16_header(inst.cfg)
+        if inst.h.get("langdata"):
+            from . import langdata
+            known, _ = driver.load_known()
+            kp = {}
+            for k in known:
+                if k["key"] and k["key"].startswith("prefix-words-"):
+                    words = [w for w in k["text"].split() if w.startswith("words=")]
+                    if words:
+                        kp[k["key"][len("prefix-words-"):]] = [(w.encode(), b"") for w in words[0][6:].split(",")]
+            builder.gen_file("langdata_gen.h", lambda t: langdata.write_header(builder.langs(), t, kp))
+    except core.BuildError as e:
+        print("replay: cannot rebuild generated headers:", e)
+    inst.gen_dirs = list(builder.gen_dirs)
     inputs = None
     for f in rep["failed"]:
         if f.get("inputs"):
